@@ -274,6 +274,13 @@ func runHistory(seed uint64, idx, nBlocks int, cnt *Counters) (*finding, int, []
 		sa, pa := world.Begin(A, height, t)
 		sb, pb := world.Begin(B, height, t)
 		if pa != pb {
+			// x/upgrade keeps a scheduled plan outside genesis (its ExportGenesis is empty by
+			// design, and it is not among the modules the property names): the original chain
+			// stops for the upgrade, the imported one has no plan.  Not a round-trip defect.
+			if strings.Contains(pa, "UPGRADE") && strings.Contains(pa, "NEEDED") && pb == "" {
+				cnt.Inc("followup-ended:upgrade-plan-is-not-genesis-state")
+				return raceNote, nTx, sample
+			}
 			return &finding{height, "followup-begin-block-panic-differs", pa + " vs " + pb, cfg}, nTx, sample
 		}
 		if pa != "" {
@@ -290,6 +297,16 @@ func runHistory(seed uint64, idx, nBlocks int, cnt *Counters) (*finding, int, []
 		for i := range ra.Txs {
 			nTx++
 			if (ra.Txs[i].Code == 0) != (rb.Txs[i].Code == 0) {
+				// hard's and cdp's ExportGenesis settle accrued interest position by position; the
+				// imported position differs from the original by the rounding of that settlement
+				// (the property's allowance of one base unit per position and denomination).  A
+				// message aimed exactly at a threshold of such a position (repay all but the minimum
+				// borrow, withdraw everything, draw to the debt floor or the liquidation ratio) can
+				// then succeed on one chain and fail on the other: recorded finding, classified by
+				// module and by the refusing side's error being a threshold comparison.
+				if thresholdFlip(descs[i], ra.Txs[i].Log+" "+rb.Txs[i].Log) {
+					return &finding{height, "followup-outcome-flips-at-interest-settlement-threshold", fmt.Sprintf("%s: original code=%d %s; imported code=%d %s", descs[i], ra.Txs[i].Code, ra.Txs[i].Log, rb.Txs[i].Code, rb.Txs[i].Log), cfg}, nTx, sample
+				}
 				return &finding{height, "followup-tx-outcome-differs:" + descs[i], fmt.Sprintf("%s: original code=%d %s; imported code=%d %s", descs[i], ra.Txs[i].Code, ra.Txs[i].Log, rb.Txs[i].Code, rb.Txs[i].Log), cfg}, nTx, sample
 			}
 		}
@@ -312,6 +329,21 @@ func runHistory(seed uint64, idx, nBlocks int, cnt *Counters) (*finding, int, []
 		cnt.Inc("followup-blocks")
 	}
 	return raceNote, nTx, sample
+}
+
+// thresholdFlip: a hard or cdp message refused on one chain only, with an error that compares
+// a position (which the export's interest settlement moved by its rounding) with a threshold.
+func thresholdFlip(desc, logs string) bool {
+	if !(strings.HasPrefix(desc, "hard.") || strings.HasPrefix(desc, "cdp.")) {
+		return false
+	}
+	l := strings.ToLower(logs)
+	for _, k := range []string{"minimum borrow limit", "debt floor", "loan-to-value", "ltv", "collateral ratio", "collateralization", "exceeds", "insufficient", "below the minimum"} {
+		if strings.Contains(l, k) {
+			return true
+		}
+	}
+	return false
 }
 
 func classify(p string) string {
